@@ -141,7 +141,7 @@ def _entries(proto, out):
     return [(e["info"], e["name"], e["target"]) for e in es]
 
 
-def _run_case(hname, faults, zipmode=False):
+def _run_case(hname, faults, zipmode=False, hide=False):
     """faults: tuple of (kind, pos). -> list of (proto, class, detail)"""
     _patch()
     _ghosts.clear()
@@ -160,6 +160,10 @@ def _run_case(hname, faults, zipmode=False):
         names = set()
         for kind, pos in faults:
             names.add(_plant(w.root, "t", kind, pos))
+        if hide:
+            # the administrator hides the broken entries with the documented Type=X block
+            blocks = b"".join(b"Type=X\nPath=./" + n.encode() + b"\n\n" for n in sorted(names))
+            rig.write_file(os.path.join(w.root, "t", ".names"), blocks)
         for p in PROTOS:
             data, tls = rig.request(p, "/t")
             r = w.serve(data, tls)
@@ -241,10 +245,11 @@ def _shard(shard, seed, tier):
             label = "zip|%d" % item[1]
             case = {"kind": "zip", "i": item[1]}
         else:
-            _, hname, faults = item
-            bad = _run_case(hname, faults)
-            label = "%s|%s" % (hname, "+".join("%s@%s" % f for f in faults))
-            case = {"kind": "dir", "hname": hname, "faults": [list(f) for f in faults]}
+            _, hname, faults = item[:3]
+            hide = len(item) > 3 and item[3]
+            bad = _run_case(hname, faults, hide=hide)
+            label = "%s%s|%s" % (hname, "+hidden" if hide else "", "+".join("%s@%s" % f for f in faults))
+            case = {"kind": "dir", "hname": hname, "faults": [list(f) for f in faults], "hide": hide}
         part.evaluations += len(PROTOS)
         part.transitions += len(PROTOS) * 2
         part.state(label)
@@ -264,7 +269,7 @@ def replay(case):
     if case["kind"] == "zip":
         bad = _run_zip(case["i"])
     else:
-        bad = _run_case(case["hname"], tuple(tuple(f) for f in case["faults"]))
+        bad = _run_case(case["hname"], tuple(tuple(f) for f in case["faults"]), hide=case.get("hide", False))
     return (bad[0][1], bad[0][2]) if bad else None
 
 
@@ -274,6 +279,8 @@ def run(ck):
     for h in HANDLERS:
         for s in singles:
             cases.append(("dir", h, (s,)))
+            if h == "umn" and not s[0].startswith("dot-"):
+                cases.append(("dir", h, (s,), True))
         pair_kinds = KINDS if ck.tier == "thorough" else KINDS
         for (k1, p1), (k2, p2) in itertools.combinations(singles, 2):
             if k1 == k2 and p1 == p2:
